@@ -439,7 +439,7 @@ Qed.
 
 Theorem step_winv st e st' : WInv st -> step st e = ROk st' -> WInv st'.
 Proof.
-  intros H. destruct e as [c adm|c b totals|order|s b|c|s| |s|nodes newslots|ch]; cbn [step].
+  intros H. destruct e as [c adm|c b totals|order|s b|c|s| |s|nodes newslots|ch|da dd]; cbn [step].
   - destruct (lookup c (clients st)); intro E; apply ROk_inj in E; subst st'; exact H.
   - intro E; apply ROk_inj in E; subst st'. apply ensure_dials_winv. unfold client_data.
     destruct (lookup c (clients st)) as [cl|]; [|exact H].
@@ -453,6 +453,7 @@ Proof.
     eapply WInv_wext; [eapply wext_trans; [apply wext_expire | apply wext_set_inflight] | exact H].
   - destruct (find_pool st s) as [p|]; [|intro E; apply ROk_inj in E; subst st'; exact H].
     destruct (pool_get st p) as [st1 [s1|]] eqn:Eg; destruct (pool_get_winv _ _ _ _ H Eg) as (A & _); intro E; apply ROk_inj in E; subst st'; exact A.
+  - intro E; apply ROk_inj in E; subst st'. eapply WInv_wext; [apply wext_same_msgs; reflexivity | exact H].
   - intro E; apply ROk_inj in E; subst st'. eapply WInv_wext; [apply wext_same_msgs; reflexivity | exact H].
   - intro E; apply ROk_inj in E; subst st'. eapply WInv_wext; [apply wext_same_msgs; reflexivity | exact H].
 Qed.
